@@ -113,8 +113,9 @@ def drop_diagonal_before_measurement(
         new_ops = []
 
         for op in moment:
-            # If this is a measurement, mark these qubits as measured
-            if protocols.is_measurement(op):
+            # If this is a computational basis measurement, mark these qubits as measured.
+            # Other measurements (e.g. of a Pauli observable) are sensitive to phases.
+            if isinstance(op.gate, ops.MeasurementGate):
                 measured_qubits.update(op.qubits)
                 new_ops.append(op)
             # If this is a diagonal gate and ALL of its qubits will be measured, remove it
